@@ -182,9 +182,9 @@ def gen_epoch(rng, two_digit_year=False):
     if two_digit_year or r < 0.7:
         year = rng.randint(2001, 2098)
     elif r < 0.85:
-        year = rng.randint(1000, 9998)
+        year = rng.randint(1000, 9990)
     else:
-        year = rng.choice([2000, 2099, 2100, 1999, 9998, 1000])
+        year = rng.choice([2000, 2099, 2100, 1999, 9990, 1000])
         if two_digit_year:
             year = rng.randint(2001, 2098)
     r = rng.random()
